@@ -222,6 +222,42 @@ theorem lock_handoff (l l' : Lock) (choice : Pox.CoopLock.Task) (w : Option Pox.
       · simp [hl, hw, hc] at h
 
 open Pox.CoopLock in
+/-- **try-lock.**  A non-blocking `acquire(False)` on a taken lock gives `False` back, the task keeps running, and the
+lock — in particular its waiter set — is exactly as before: a task whose try-lock failed is not a waiter, so (by
+`lock_handoff`, which hands over only to members of the waiter set) it can never be handed the lock.  On a free lock it
+takes the lock like a blocking acquire.  (`lock_excl` / `lock_excl_multi` quantify over all operation sequences, try-locks
+included.) -/
+theorem lock_trylock (l : Lock) (t : Pox.CoopLock.Task) :
+    (l.locked ≠ none → acquire l t false = (l, .resumed false)) ∧
+    (l.locked = none → acquire l t false = ({ l with locked := some (.task t) }, .resumed true)) := by
+  constructor
+  · intro h; cases hl : l.locked with
+    | none => exact absurd hl h
+    | some hd => simp [acquire, hl]
+  · intro h; simp [acquire, h]
+
+open Pox.CoopLock in
+/-- in the multi-task system: a failed try-lock changes nothing at all, a blocking acquire of a taken lock adds exactly the
+caller to the waiters -/
+theorem lock_waiters_exact (s s' : Sys) (t : Pox.CoopLock.Task) (b : Bool) (hheld : s.lock.locked ≠ none)
+    (hs : sstep s (.acq t b) = some s') :
+    s'.believers = s.believers ∧ s'.lock.locked = s.lock.locked ∧
+    s'.lock.waiting = (if b then s.lock.waiting ++ [t] else s.lock.waiting) := by
+  simp only [sstep] at hs
+  split at hs
+  · cases hs
+  · rename_i hnw
+    cases hl : s.lock.locked with
+    | none => exact absurd hl hheld
+    | some hd =>
+      cases b <;> simp [acquire, hl, hnw] at hs <;> subst hs <;> simp [hl]
+
+open Pox.CoopLock in
+/-- holder, a failed try-lock, a blocking waiter; the release hands the lock to the waiter, not to the try-locker -/
+example : (srun {} [.acq 1 true, .acq 2 false, .acq 3 true, .rel 1 3]) =
+    { lock := { locked := some (.task 3), waiting := [] }, believers := [3] } := by decide
+
+open Pox.CoopLock in
 /-- the discipline is needed: `_do_release` does not check who releases, so a task that was never handed the lock can
 free it under its owner, and two tasks then believe they hold it (same contract as `threading.Lock`; not a defect of
 the code, but the exact hypothesis under which `lock_excl` holds) -/
